@@ -319,9 +319,9 @@ def callStatic (ap : Apply) (k : Nat) (name : String) (args : List Val) : R Val 
   | "ceil", [v] => match toFloat? v with | some f => .ok (.flt f.ceil) | none => .err
   | "trunc", [v] => match toFloat? v with
       | some f => .ok (.flt (if f < 0 then f.ceil else f.floor)) | none => .err
-  | "min", [] => .unmodelled      -- Go returns a nil Value
+  | "min", [] => .err             -- (repaired: was a nil Value)
   | "min", v :: vs => minMaxFold (fun new m => valLess new m) v vs
-  | "max", [] => .unmodelled
+  | "max", [] => .err
   | "max", v :: vs => minMaxFold (fun new m => valLess m new) v vs
   | _, _ => .unmodelled
 
